@@ -151,7 +151,7 @@ func runC06(c *Cfg) {
 		return
 	}
 	// 2. randomised large batches
-	nr := c.Pick(300, 5000)
+	nr := c.Pick(300, 20000)
 	gatedLoop(c, nr, func(i int) *BatchCase {
 		rg := c.Rng("c06rand", i)
 		n := 1 + rg.IntN(64)
@@ -169,7 +169,7 @@ func runC06(c *Cfg) {
 	}, "C06")
 	// 2b. stop mode and cancellation under gated random schedules: post still sees every executed item's own outcome,
 	// once, after everything that was started has settled
-	ns := c.Pick(1500, 20000)
+	ns := c.Pick(1500, 80000)
 	gatedLoop(c, ns, func(i int) *BatchCase {
 		rg := c.Rng("c06stop", i)
 		n := 2 + rg.IntN(10)
@@ -324,7 +324,7 @@ func runC07(c *Cfg) {
 		runBatchRace(c, "C07")
 		return
 	}
-	nr := c.Pick(6000, 100000)
+	nr := c.Pick(6000, 300000)
 	gatedLoop(c, nr, func(i int) *BatchCase {
 		rg := c.Rng("c07", i)
 		n := 1 + rg.IntN(32)
@@ -381,7 +381,7 @@ func runC07(c *Cfg) {
 // runC02Batch: per-item retry/fallback exactness on small batches (every item of a batch).
 func runC02Batch(c *Cfg) {
 	r := c.Rep
-	nr := c.Pick(8000, 80000)
+	nr := c.Pick(8000, 250000)
 	gatedLoop(c, nr, func(i int) *BatchCase {
 		rg := c.Rng("c02b", i)
 		n := 1 + rg.IntN(6)
@@ -520,7 +520,7 @@ func runC09(c *Cfg) {
 		}
 	}, "C09")
 	// free-running stop-mode runs with many failures
-	nr := c.Pick(300, 5000)
+	nr := c.Pick(300, 20000)
 	gatedLoop(c, nr, func(i int) *BatchCase {
 		rg := c.Rng("c09free", i)
 		n := 1 + rg.IntN(32)
